@@ -122,3 +122,13 @@ def replay(ctx, obj):
     src = f.get("input")
     if src:
         print(ctx.impl(["compile_lex\t%s" % vlib.enc_text(src)]), ctx.model(["compile_core\t%s" % vlib.enc_text(src)]))
+
+
+def still_fails(ctx, src):
+    """used by the shrinker: the implementation's notes differ from what the model (proved equal to the documented
+    semantics on the fragment) gives, or implementation and model differ in bytes"""
+    g = ctx.impl(["compile_lex\t%s" % vlib.enc_text(src)], stall=10)[0]
+    m = ctx.model(["compile_core\t%s" % vlib.enc_text(src)])[0]
+    if m.startswith("UNSUPPORTED") or m.startswith("OUTOFFUEL") or m in ("PANIC",):
+        return False
+    return g != m
